@@ -44,12 +44,14 @@ def sh(cmd, timeout=None, env=None, cwd=None, check=False):
 
 
 class Ctx:
-    def __init__(self, pid, tier, seed):
+    def __init__(self, pid, tier, seed, keep=False):
         self.pid = pid
         self.tier = tier
         self.seed = seed
         self.t0 = time.time()
         self.out = f'{OUT}/{pid}'
+        if keep:            # --replay: the replay file usually lives under out/<id>/replay
+            self.out = f'{OUT}/{pid}/replaying'
         shutil.rmtree(self.out, ignore_errors=True)
         os.makedirs(self.out, exist_ok=True)
         os.makedirs(f'{self.out}/replay', exist_ok=True)
